@@ -7,6 +7,9 @@ Case grammar (see harness/C05.cpp, ocaml/C05_driver.ml); a matrix is a table `ro
   seq A k step_1 .. step_k   a call history on ONE object with initial entries A; steps:
       queries  det | invertible | inverse | orthogonal | copydet | transdet | subdet i j
       updates  add B (+=) | sub B (-=) | set i j v | swap i j | assignm B (=) | assign r c v | resize r c | delrow i | delcol j
+    references kept by the caller (both forms of history):  hold h i (std::vector<double>& r_h = M[i]) | holde h i j (double& e_h = M[i][j])
+      taken at one time and written through later, between two queries and without any member call:
+      hset h j v (r_h[j] = v) | hswap h1 h2 (std::swap(r_h1, r_h2)) | hrow h l (r_h = l) | eset h v (e_h = v)
     output: per query `D x x'` / `F b b'` / `X M.. M..` = the object's answer and the answer of a new object built from the
     object's current entries; `U` per update.  A call that terminates the process makes the whole case EXIT.
   hist m A_1 .. A_m k (obj step)_1 .. (obj step)_k   a call history on m objects (fixed storage each), calls interleaved, and NOTHING
@@ -34,7 +37,7 @@ DET_SLACK = 64 * EPS
 #   ||X - M^-1||_F <= C_INV*n*kappa*eps*||M^-1||_F,  ||X*M - 1||_F <= C_INV*n*kappa*eps,  ||M*X - 1||_F <= C_INV*n*kappa^2*eps.
 C_INV = 64.0
 RULE = ("one case = one call of Determinant / Invertible / Inverse (or a determinant law on two calls, or a call history of 3..12 calls on "
-        "one object, or interleaved on up to three objects); non-trivial = the matrix has a zero or tiny (< 1e-8*||M||^k for the k-th) leading principal minor, or a condition "
+        "one object, or interleaved on up to three objects, the updates made by member calls or through references to rows / entries that the caller took earlier); non-trivial = the matrix has a zero or tiny (< 1e-8*||M||^k for the k-th) leading principal minor, or a condition "
         "number above 1e4, or is non-square / exactly singular (guard exercised), or its determinant leaves the normal double range, or "
         "the case is a call history; distinct by case text")
 LEVEL_TEXT = ("Theorems (Coq/MathComp, every size, every field): the model's Laplace determinant is the determinant (\\det), hence multiplicative, "
@@ -42,7 +45,7 @@ LEVEL_TEXT = ("Theorems (Coq/MathComp, every size, every field): the model's Lap
               "whenever Inverse returns X then X*M = 1 and M*X = 1; a singular or non-square matrix exits; see evidence.coverage.theorems. "
               "NOT a theorem: the floating-point accuracy clause (c*n*kappa*eps) - it is checked in S4 against the exact rational inverse and "
               "determinant of the double-valued input. Call histories on one object: for every arithmetic the model's answer depends on the current "
-              "entries only (theorems C05_seq_*); that the implementation has no other state is checked by correspondence and by the S4 clause "
+              "entries only (theorems C05_seq_*, C05_hist_*), also when the caller writes through references to rows / entries taken earlier (C05_href_*: such a write is the indexed write, the answer is the one for the current entries); that the implementation has no other state is checked by correspondence and by the S4 clause "
               "'history' (object's answer = answer of a new object with the same entries, bit for bit). Known findings K-C05-1/-2 (see "
               "known_findings.d/C05.json) are properties of floating-point evaluation, outside the exact-arithmetic theorems. "
               "The Gallina model is extracted and run against libphysica on every run (bit-identical).")
@@ -509,9 +512,10 @@ def det_tol(A):
 # is not disturbed by the probe; the reference there is the model and the clauses)
 QUERIES = ["det", "det", "invertible", "inverse", "orthogonal", "copydet", "transdet", "subdet"]
 PURE_QUERIES = QUERIES + ["invertible", "inverse", "copyinvertible", "copyinverse"]
-UPDATES = ["add", "add", "sub", "sub", "set", "swap", "assignm", "assign", "resize", "delrow+delcol", "add-singular", "add-regular", "add-zero"]
+UPDATES = ["add", "add", "sub", "sub", "set", "set", "setrow", "swap", "swap", "assignm", "assign", "resize", "delrow+delcol", "add-singular", "add-regular", "add-zero"]
 QUERY_ALIAS = {"copyinvertible": "invertible", "copyinverse": "inverse"}
-UPDATE_WORDS = ("add", "sub", "set", "swap", "assignm", "renew", "assign", "resize", "delrow", "delcol")
+REF_WORDS = ("hold", "holde", "hset", "hswap", "hrow", "eset")
+UPDATE_WORDS = ("add", "sub", "set", "swap", "assignm", "renew", "assign", "resize", "delrow", "delcol") + REF_WORDS
 
 
 def sim_update(A, st):
@@ -544,8 +548,48 @@ def sim_update(A, st):
     raise ValueError(op)
 
 
+def sim_refs(A, H, st):
+    """entries and held references after one non-query step -> (entries, references); entries None = the step terminates the
+    process (or uses a reference that is not held: never generated).  H: handle -> ('r', i) a row reference, ('e', i, j) an entry
+    reference.  Which references survive a member call follows the container rules (value-only calls: all; row exchange and
+    Delete_Column: the row references; Resize / Assign to at most the current number of rows: the row references to the rows
+    that remain, to more rows: none; Delete_Row(k): the rows before k; operator= / a new object: none)"""
+    op = st[0]; m = len(A); nc = len(A[0]) if A else 0
+    rows_only = lambda keep=(lambda i: True): {h: r for h, r in H.items() if r[0] == "r" and keep(r[1])}
+    if op == "hold":
+        if st[2] >= m: return None, H
+        H = dict(H); H[st[1]] = ("r", st[2]); return A, H
+    if op == "holde":
+        if st[2] >= m or st[3] >= nc: return None, H
+        H = dict(H); H[st[1]] = ("e", st[2], st[3]); return A, H
+    if op in ("hset", "hrow"):
+        r = H.get(st[1])
+        if r is None or r[0] != "r": return None, H
+        if op == "hset": return sim_update(A, ("set", r[1], st[2], st[3])), H
+        if len(st[2]) != nc: return None, H
+        R = [list(x) for x in A]; R[r[1]] = list(st[2]); return R, rows_only()
+    if op == "eset":
+        r = H.get(st[1])
+        if r is None or r[0] != "e": return None, H
+        return sim_update(A, ("set", r[1], r[2], st[2])), H
+    if op == "hswap":
+        r1, r2 = H.get(st[1]), H.get(st[2])
+        if r1 is None or r2 is None or r1[0] != "r" or r2[0] != "r": return None, H
+        return sim_update(A, ("swap", r1[1], r2[1])), rows_only()
+    nxt = sim_update(A, st)
+    if nxt is None: return None, H
+    if op in ("add", "sub", "set"): return nxt, H
+    if op in ("swap", "delcol"): return nxt, rows_only()
+    if op in ("resize", "assign"): return nxt, (rows_only(lambda i: i < st[1]) if st[1] <= m else {})
+    if op == "delrow": return nxt, rows_only(lambda i: i < st[1])
+    return nxt, {}
+
+
 def step_text(st):
     op = st[0]
+    if op == "hset": return f"hset {st[1]} {st[2]} {hx(st[3])}"
+    if op == "eset": return f"eset {st[1]} {hx(st[2])}"
+    if op == "hrow": return f"hrow {st[1]} {flist(st[2])}"
     if op in ("add", "sub", "assignm", "renew"): return f"{op} {mtab(st[1])}"
     if op in ("set", "assign"): return f"{op} {st[1]} {st[2]} {hx(st[3])}"
     return " ".join([op] + [str(x) for x in st[1:]])
@@ -564,8 +608,12 @@ class Obj:
     """the call history of one object under construction: the generator follows the entries (`cur`) so that only the last
     call of a history may be one that has to terminate the process.  pure = the history is run without fresh-object probes
     (`hist`), where the queries on a copy and the re-construction in place are available too"""
-    def __init__(s, rng, n, kind, pure=False, A=None):
+    def __init__(s, rng, n, kind, pure=False, A=None, refs=None):
         s.rng = rng; s.kind = kind; s.pure = pure
+        # refs: the caller keeps references to rows / entries of the object (taken before a query) and makes the updates
+        # `set`, `swap`, `setrow` through them whenever a reference to the place is held
+        s.refs = (rng.random() < 0.5) if refs is None else refs
+        s.H = {}; s.nexth = 0; s.used_refs = False
         s.A = gen_matrix(rng, n, kind) if A is None else A
         s.n = len(s.A); s.cur = [list(r) for r in s.A]; s.steps = []
         s.intish = small_int(s.A)
@@ -580,9 +628,41 @@ class Obj:
             B = gen_matrix(rng, m, "dense-int" if s.intish else "dense") if sing is None else gen_matrix(rng, m, rng.choice(["rank-deficient", "rank-deficient-combo"]) if sing else "dense-int")
             if sing is None or ctx_of(B).singular == sing: return B
 
-    def push(s, st):
-        if st[0] in UPDATE_WORDS: s.cur = sim_update(s.cur, st)
+    def row_ref(s, i): return next((h for h, r in s.H.items() if r == ("r", i)), None)
+
+    def take_refs(s):
+        """references to all rows (or to some), and to a few entries, taken now"""
+        rng = s.rng; cur = s.cur; m = len(cur); nc = len(cur[0]) if cur else 0
+        if m == 0 or nc == 0: return
+        p = rng.choice([1.0, 1.0, 0.6])
+        for i in range(m):
+            if rng.random() < p and s.row_ref(i) is None:
+                s.apply(("hold", s.nexth, i)); s.nexth += 1
+        for _ in range(rng.choice([0, 0, 1, 2])):
+            s.apply(("holde", s.nexth, rng.randrange(m), rng.randrange(nc))); s.nexth += 1
+
+    def through_refs(s, st):
+        """the same update made through a held reference, when there is one to the place"""
+        rng = s.rng
+        if st[0] == "set":
+            he = [h for h, r in s.H.items() if r == ("e", st[1], st[2])]; hr = s.row_ref(st[1])
+            if he and rng.random() < 0.8: return ("eset", rng.choice(he), st[3])
+            if hr is not None and rng.random() < 0.8: return ("hset", hr, st[2], st[3])
+        if st[0] == "swap":
+            h1, h2 = s.row_ref(st[1]), s.row_ref(st[2])
+            if h1 is not None and h2 is not None and rng.random() < 0.8: return ("hswap", h1, h2)
+        return st
+
+    def apply(s, st):
+        if st[0] in REF_WORDS: s.used_refs = True
+        if st[0] in UPDATE_WORDS: s.cur, s.H = sim_refs(s.cur, s.H, st)
         s.steps.append(st)
+
+    def push(s, st):
+        if s.refs:
+            if st[0] not in UPDATE_WORDS and not any(r[0] == "r" for r in s.H.values()) and s.rng.random() < 0.7: s.take_refs()   # before a query
+            st = s.through_refs(st)
+        s.apply(st)
 
     def query(s, among=None):
         rng = s.rng; cur = s.cur
@@ -612,6 +692,9 @@ class Obj:
             if small_int(cur): return [("add", [[t - x for t, x in zip(rt, rx)] for rt, rx in zip(T, cur)])]
             return s.replace(T)
         if u == "set": return [("set", rng.randrange(m), rng.randrange(m), s.V())]
+        if u == "setrow":
+            i = rng.randrange(m); vals = [s.V() for _ in range(m)]; h = s.row_ref(i)
+            return [("hrow", h, vals)] if h is not None and s.refs else [("set", i, j, vals[j]) for j in range(m)]
         if u == "swap": return [("swap", rng.randrange(m), rng.randrange(m))]
         if u == "assignm": return s.replace(s.new_mat(rng.choice([m, m, max(1, m - 1), min(7, m + 1)])))
         if u == "assign":
@@ -742,6 +825,7 @@ def gen_seq(rng, n, kind):
     o = Obj(rng, n, kind); o.random_history(rng.randint(3, 9))
     tags = ["seq", kind, f"n={o.n}"]
     if rng.random() < 0.12: o.terminal(); tags.append("last-call-may-exit")
+    if o.used_refs: tags.append("held-references")
     return seq_case(o, tags)
 
 
@@ -758,6 +842,7 @@ def gen_hist(rng, n):
     if rng.random() < 0.12:
         k = rng.randrange(m); o = objs[k]; before = len(o.steps); o.terminal()
         order += [(k, st) for st in o.steps[before:]]; tags.append("last-call-may-exit")
+    if any(o.used_refs for o in objs): tags.append("held-references")
     return hist_case(objs, order, tags)
 
 
@@ -768,7 +853,7 @@ def gen_flip(rng, n, pure):
     o = Obj(rng, n, "flip", pure=pure, A=regular_near(rng, T, V))
     o.V = V
     may_exit = o.flip_chain(T, rng.choice([1, 1, 2, 3]))
-    tags = ["flip", f"n={n}"] + (["last-call-may-exit"] if may_exit else [])
+    tags = ["flip", f"n={n}"] + (["last-call-may-exit"] if may_exit else []) + (["held-references"] if o.used_refs else [])
     if not pure: return seq_case(o, ["seq"] + tags)
     m = rng.choice([1, 1, 2, 3])
     objs = [o] + [Obj(rng, rng.randint(1, 5), rng.choice(["dense-int", "dense", "signed-perm"]), pure=True) for _ in range(m - 1)]
@@ -877,7 +962,11 @@ class Rd:
         w = s.word()
         if w in ("add", "sub", "assignm", "renew"): return (w, s.table())
         if w in ("set", "assign"): return (w, s.int(), s.int(), s.num())
-        if w in ("swap", "resize", "subdet"): return (w, s.int(), s.int())
+        if w in ("swap", "resize", "subdet", "hold", "hswap"): return (w, s.int(), s.int())
+        if w == "holde": return (w, s.int(), s.int(), s.int())
+        if w == "hset": return (w, s.int(), s.int(), s.num())
+        if w == "eset": return (w, s.int(), s.num())
+        if w == "hrow": return (w, s.int(), s.list())
         if w in ("delrow", "delcol"): return (w, s.int())
         return (w,)
 
@@ -1003,12 +1092,13 @@ def predicates_seq(r, io):
         w = 0 if probe else r.int()
         steps.append((w, r.step()))
     ex = io.startswith("EXIT"); t = io.split(); p = 0
+    held = [{} for _ in objs]
     for idx, (w, st) in enumerate(steps):
         where = f"call {idx + 1} ({st[0]})" if probe else f"call {idx + 1} (object {w}: {st[0]})"
         if w >= len(objs): return out
         cur = objs[w]
         if st[0] in UPDATE_WORDS:
-            nxt = sim_update(cur, st)
+            nxt, held[w] = sim_refs(cur, held[w], st)
             if nxt is None:
                 if not ex: bad("guard", f"{where}: request outside the shape of the matrix did not terminate with a diagnostic")
                 return out
